@@ -55,22 +55,24 @@ P("C03", "proof", "Lean 4 theorems (induction over tokens and over the step list
   theorems=["TP.C03.dei_reverse", "TP.C03.dei_interleave", "TP.C03.dei_exhaust", "TP.C03.dei_stays_exhausted", "TP.C03.dei_conservation"],
   rule=NONTRIV + "non-trivial = at least two components; distinct by (encoding, input, mask)", design_ref="§5 C03")
 
-P("C04", "proof", "Lean 4 theorems (acceptance rule, first-offender error, Unix append lemma) + model/code correspondence; Windows keeps-base clause by oracle (known finding K3)",
+P("C04", "proof", "Lean 4 theorems (acceptance rule, first-offender error, append lemma for Unix and prefix-free Windows bases) + model/code correspondence; keeps-base for prefixed Windows bases by oracle (known finding K3)",
   "Proved in Lean for both encodings: the checked push succeeds exactly when the argument has no prefix, no root, no "
   "invalid name and no `..` outnumbering the names before it, stated with counts over every initial segment "
   "(checked_accepts_iff, scan_none_iff, neverClimbs_iff_counts), and then equals the unchecked join "
   "(checked_ok_eq_push); an error names the first offending component, everything before it being acceptable "
   "(checked_error_first). For Unix the result's components are exactly the base's followed by the argument's minus a "
-  "leading `.`, and the added components never climb (unix_checked_keeps_base, unix_checked_empty_base).",
-  "Partial: the keeps-base clause for Windows is not proved — it is false at known finding K3 (proved as "
-  "windows_K3_witness) and needs the Windows append lemma otherwise; the oracle decides it on every run with K3 set "
-  "aside by a narrow class predicate. 'Failure leaves the base unchanged' is by construction in the model (no buffer is "
+  "leading `.`, and the added components never climb (unix_checked_keeps_base, unix_checked_empty_base). "
+  "For Windows the same keeps-base statement is proved for every non-empty prefix-free base, i.e. one that does not "
+  "start with two separators or `X:` (win_checked_keeps_base_pf).",
+  "Partial: the keeps-base clause for Windows bases WITH a prefix is not proved — it is false for bases that start "
+  "with two separators, known finding K3 (proved as windows_K3_witness) — the oracle decides it on every run with K3 "
+  "set aside by a narrow class predicate. 'Failure leaves the base unchanged' is by construction in the model (no buffer is "
   "returned on error) and is checked on the implementation by the correspondence (MUTATED flag). Model=code by "
   "differential testing; byte/UTF-8/typed forms agree: oracle.",
   theorems=["TP.C04.neverClimbs_iff_counts", "TP.C04.scan_none_iff", "TP.C04.checked_accepts_iff", "TP.C04.checked_ok_eq_push",
             "TP.C04.checked_error_first", "TP.C04.unix_checked_keeps_base", "TP.C04.unix_checked_empty_base", "TP.C04.windows_K3_witness",
-            "TP.unix_push_comps"],
-  modules=["TypedPathVerif.Lemmas.Append"],
+            "TP.unix_push_comps", "TP.C16b.win_checked_keeps_base_pf"],
+  modules=["TypedPathVerif.Lemmas.Append", "TypedPathVerif.Props.C16b"],
   rule=NONTRIV + "non-trivial = argument has >= 2 components or is rejected", design_ref="§5 C04")
 
 P("C05", "proof", "Lean 4 theorems (lexicographic total-order laws, eq iff components, hash factors through components) + model/code correspondence incl. exact hasher input",
@@ -251,15 +253,21 @@ P("C16", "proof", "Lean 4 theorems (same-encoding clauses; Windows->Unix structu
   "prefix-free (hence non-verbatim) Windows byte string the Unix conversion parses to exactly the same sequence of "
   "component kinds and names (conv_w2u_prefix_free — no portability hypothesis is needed in this direction because "
   "every Windows name is `/`-free), using the fact that a string not starting with two separators or `X:` has no "
-  "prefix (parsePrefix_none_of_pfxStart) and the render lemma for Unix.",
-  "Partial: the Unix->Windows direction and the round trip (need the append lemma for prefix-free Windows buffers plus "
-  "the both-sides-valid hypothesis), 'a prefix is dropped / rooted or non-disk-prefixed becomes rooted', and the checked "
-  "clauses are NOT proved; the checked clause is false at known finding K4 (conv_checked_K4_witness: a Unix name "
+  "prefix (parsePrefix_none_of_pfxStart) and the render lemma for Unix. "
+  "Also proved (Props/C16b): for every Unix path whose names are portable (non-empty, not `.`/`..`, no separator of "
+  "either encoding, no `:`), the Windows conversion parses to exactly the same sequence of component kinds and names "
+  "and is prefix-free (conv_u2w_portable); the round trips Unix->Windows->Unix and Windows->Unix->Windows return an "
+  "equal path (roundtrip_u_w_u, roundtrip_w_u_w), the latter for prefix-free Windows paths; both rest on the append "
+  "lemma for prefix-free Windows buffers (win_push_comps_pf).",
+  "Partial: 'a prefix is dropped / rooted or non-disk-prefixed becomes rooted' for PREFIXED Windows sources and the "
+  "checked clauses are NOT proved; the checked clause is false at known finding K4 (conv_checked_K4_witness: a Unix name "
   "containing `\\` becomes two Windows components). The oracle decides all of them on every run in all four "
   "directions (forbidden-byte alphabet, prefix seeds), K4 set aside by a narrow class predicate. Typed / platform / "
-  "UTF-8 shortcuts: oracle. Model=code by differential testing.",
+  "UTF-8 shortcuts (unchecked, checked, owned, same-encoding): oracle. Model=code by differential testing.",
   theorems=["TP.C16.conv_same_label", "TP.C16.conv_checked_same_label", "TP.C16.conv_w2u_prefix_free",
-            "TP.C16.parsePrefix_none_of_pfxStart", "TP.C16.win_comps_pf", "TP.C16.conv_checked_K4_witness"],
+            "TP.C16.parsePrefix_none_of_pfxStart", "TP.C16.win_comps_pf", "TP.C16.conv_checked_K4_witness",
+            "TP.C16b.win_push_comps_pf", "TP.C16b.conv_u2w_portable", "TP.C16b.roundtrip_u_w_u", "TP.C16b.roundtrip_w_u_w"],
+  modules=["TypedPathVerif.Props.C16b"],
   rule=NONTRIV + "strings over {\\ / : . a}, forbidden-byte alphabet, prefix seeds; non-trivial = prefix or >= 2 components", design_ref="§5 C16")
 
 P("C17", "proof", "tables regenerated from the source + Lean 4 theorems (decide over the whole tables, validity lemmas) + correspondence",
